@@ -177,6 +177,19 @@ def r3(tree, prog, rep):
                   (own + foreign)[0].site if (own + foreign) else prog.cls(cname).file, key="C02.R3:side-writer:%s" % cname)
 
 
+def dedup_set_discipline(tree, rep, rule):
+    """the set of peer phases already handed on is created once, by the constructor, and only ever grows"""
+    own, foreign = class_writers(tree, "Mailbox", "_processed")
+    for w in own + foreign:
+        ok = w in own and ((w.kind == "assign" and w.fn in ("__init__", "__attrs_post_init__") and is_empty_ctor(w.value, ("set",)))
+                           or w.kind == "call:add")
+        rep.check(rule, "Mailbox._processed writer %s only initialises (in the constructor) or adds" % w.brief(), ok, w.site,
+                  key="%s:_processed:writer:%s" % (rule, w.brief()),
+                  what="the per-phase dedup set is modified by %s (a phase could be accepted twice, e.g. after a reconnect)" % w.brief())
+    if len(own) < 2:
+        raise AnalysisError("Mailbox._processed has fewer writers than expected")
+
+
 def r4_r5(tree, prog, rep):
     M = prog.machine("Mailbox")
     rx = M.methods.get("rx_message")
@@ -221,15 +234,7 @@ def r4_r5(tree, prog, rep):
         if n == 0:
             raise AnalysisError("no call site of %s found" % callee)
     # R5 dedup
-    own, foreign = class_writers(tree, "Mailbox", "_processed")
-    for w in own + foreign:
-        ok = w in own and ((w.kind == "assign" and w.fn in ("__init__", "__attrs_post_init__") and is_empty_ctor(w.value, ("set",)))
-                           or w.kind == "call:add")
-        rep.check("C02.R5", "Mailbox._processed writer %s only initialises or adds" % w.brief(), ok, w.site,
-                  key="C02.R5:_processed:writer:%s" % w.brief(),
-                  what="the per-phase dedup set is modified by %s (a phase could be accepted twice, e.g. after a reconnect)" % w.brief())
-    if len(own) < 2:
-        raise AnalysisError("Mailbox._processed has fewer writers than expected")
+    dedup_set_discipline(tree, rep, "C02.R5")
     n = 0
     for oname, ofn in M.outputs.items():
         gm = calls_named(ofn, "self._O.got_message")
